@@ -159,8 +159,12 @@ func writeFacts(path string) error {
 	sort.Strings(discovered)
 	sort.Slice(facts, func(i, j int) bool { return facts[i].Key < facts[j].Key })
 	var driven []string
+	seenRow := map[string]bool{}
 	for _, r := range stackTable {
-		driven = append(driven, r.key())
+		if !seenRow[r.key()] { // configured variants are further rows of the same server
+			seenRow[r.key()] = true
+			driven = append(driven, r.key())
+		}
 	}
 	sort.Strings(driven)
 	var b strings.Builder
